@@ -176,6 +176,10 @@ def identity_lost(sent, args, kwargs):
     return False
 
 
+class ArgsTuple(tuple):
+    """positional arguments handed over as an instance of a tuple subclass (a namedtuple, a struct_time, ...)"""
+
+
 class Holder:
     """an object that owns the scheduler and lends a bound method as a job's callback, as in
     `sch.once(t, sch.delete_job, args=(job,))`: repr(callback) shows the scheduler, which shows the job"""
@@ -329,6 +333,8 @@ class Impl:
             skip_missing=c["skip"], weight=self.weight(c),
             args=tuple(Val(a) for a in c["args"]) if c["args"] else None,
             kwargs={"k%d" % k: Val(v) for k, v in c["kwargs"]} if c["kwargs"] else ({} if jid % 3 == 0 else None))
+        if kw["args"] is not None and jid % 4 == 1:
+            kw["args"] = ArgsTuple(kw["args"])       # a tuple subclass is a tuple: its elements are the arguments
         # every other job is scheduled with ONE tags set and ONE kwargs dict that the caller reuses (refilled for
         # each call, mutated after it): a job that kept a reference would change with the next job
         if jid % 2 == 0:
